@@ -5,7 +5,7 @@ import shutil
 import tempfile
 
 from engine import gen_states, pool_map
-from readers import join_lines, run_cli, split_tag, write_text, workdir
+from readers import join_lines, run_cli, split_tag, write_text, workdir, lines_of
 
 N1 = "ACGTTGCAAGGCTTAACGGATCCA"
 N2 = "TTGACCGATAGGCATCAAGT"
@@ -46,7 +46,8 @@ def pair_up(inp_lines, out_lines, by_name=True):
     for l in inp_lines:
         nm = l.split("\t")[0].split(" ")[0]
         o = outs.get(nm)
-        recs.append({"inp": split_line(l), "out": split_line(o) if o is not None else {"cols": [], "opt": []}, "missing": o is None})
+        recs.append({"inp": split_line(l), "out": split_line(o) if o is not None else {"cols": [], "opt": []}, "missing": o is None,
+                     "pt": nm == "bare_long"})       # pt: realign passes this record through unchanged (> 60,000 aligned read bases)
     return recs
 
 
@@ -67,7 +68,7 @@ def run_file(job):
 
         def emit(path, argv, inp_lines, out_path):
             r = run_cli(argv, timeout=120)
-            out = open(out_path).read().splitlines() if os.path.exists(out_path) else []
+            out = lines_of(open(out_path).read()) if os.path.exists(out_path) else []
             st = r["status"] if r["status"] == "ok" else r["status"] + ":" + r["exc"][:50]
             cases.append({"id": f"{fid}.{path}", "path": path, "status": st, "recs": pair_up(inp_lines, out)})
             return out
@@ -80,10 +81,29 @@ def run_file(job):
         emit("node_stable", ["view", gaf, "-n", "s2", "-g", gfa, "-f", "stable", "-o", os.path.join(d, "o4")], lines, os.path.join(d, "o4"))
         if do_realign:
             fa = os.path.join(d, "r.fa")
+            rlines, extra_reads = lines, []
+            if fid == "f0":
+                # two records WITHOUT any optional field in front of the batch: a short one (realigned, gains its cg) and one with
+                # 60,001 aligned read bases, which is documented to be written back as it is
+                import random as _r
+
+                big = "".join(_r.Random(11).choice("ACGT") for _ in range(60010))
+                with open(gfa, "a") as f:
+                    f.write(f"S\ts3\t{big}\tLN:i:{len(big)}\tSN:Z:chr1\tSO:i:{len(N1) + len(N2)}\tSR:i:0\nL\ts2\t+\ts3\t+\t0M\n")
+                short = N1[2:22]
+                rlines = ["\t".join(["bare_short", "20", "0", "20", "+", ">s1", str(len(N1)), "2", "22", "20", "20", "60"]),
+                          "\t".join(["bare_long", "60001", "0", "60001", "+", ">s3", str(len(big)), "3", "60004", "60001", "60001", "60"])] + lines
+                extra_reads = [("bare_short", short), ("bare_long", big[3:60004])]
+                gaf_r = os.path.join(d, "r.gaf")
+                write_text(gaf_r, "\n".join(rlines) + "\n")
+            else:
+                gaf_r = gaf
             with open(fa, "w") as f:
+                for nm_, sq_ in extra_reads:
+                    f.write(f">{nm_}\n{sq_}\n")
                 for (k, fl, cg, rev, sp) in specs:
                     f.write(f">q{k}\n{read_seq(rev)}\n")
-            emit("realign", ["realign", gaf, gfa, fa, "-o", os.path.join(d, "o5")], lines, os.path.join(d, "o5"))
+            emit("realign", ["realign", gaf_r, gfa, fa, "-o", os.path.join(d, "o5")], rlines, os.path.join(d, "o5"))
         return cases
     finally:
         shutil.rmtree(d, ignore_errors=True)
